@@ -31,7 +31,8 @@ WHY_NOT_FIXED = {
     "F27": "the applied cursor does not say whether the proposal it passed was applied or refused, so the 'already applied' shortcut cannot be repaired locally; a repair records the outcome with the cursor (a change of the configuration record) or re-orders the two writes, which re-opens the liveness hole C07.2c closes",
     "F35": "the value maps live in primitives of their own and there is no transaction across primitives: writing the record first re-opens the crash window that C01.8/C07.2 close (a committed cursor ahead of its values), writing the values first is this defect, and a per-path index guard cannot tell a stale writer from a rollback (both carry older indexes); a repair puts the values under the record's version (one primitive, or a version stamp on every value checked on read)",
     "F39": "the cause is in the pinned onos-lib-go (handleClaim uses Add without Del, and the server installs its interceptor before anything the application passes); the repair belongs there. Inside onos-config it needs new server wiring — a grpc.InTapHandle that clears groups/name/email/preferred_username from the incoming metadata when authorization is on, which is what C14.5 looks for — and cannot be demonstrated through the manager in a unit test",
-    "F25": "the repair changes the persistence semantics of both value maps (the store must delete what the map no longer has), the ancestor search of applyChangeToConfig in v2 and v3, and the merge into the applied values",
+    "F25": "the v2 half was repaired in round 2 of this work (ad644df: ancestor search by IsDescendantPath, the store synchronises its value maps, the applied values go through applyChangeToConfig) after nine independent agents had run into it; the v3 controller and store (not wired into the manager) keep the old shape and stay listed",
+    "F62": "the repair is one backing client (or subscription object) per northbound stream and target, with Poll addressed to that object: a change of the southbound Client interface, its generated mock and the northbound subscription context (the reviewers' trial repair is kept in findings/_observations/review2_C19/REVIEW/c19_repair.diff.txt)",
 }
 
 
